@@ -1,4 +1,4 @@
 SPECIFICATION Spec
-CONSTANTS MaxConn = 2  Msgs = {1, 2}  MaxCnt = 2  ChanCap = 2  MaxInject = 4  RouteByID = TRUE  DeleteOnClose = TRUE  FreshIDs = FALSE
+CONSTANTS MaxConn = 2  Msgs = {1, 2}  MaxCnt = 2  ChanCap = 2  MaxInject = 4  RouteByID = TRUE  DeleteOnClose = TRUE  FreshIDs = FALSE  SendUnderLock = TRUE
 INVARIANTS NoViolation NoSendOnClosedChannel
 CHECK_DEADLOCK FALSE
